@@ -22,3 +22,21 @@ prop("C17",
      trusted_base=["gobwas/ws client and server framing", "HTTP handshake (tested, not proved)"],
      assumptions=["frames arrive in order on one TCP connection", "sub-protocol acceptance is compared with a word list, not proved"],
 )
+
+prop("C13",
+     coq=["gen/Extracted.v", "model/Route.v", "proofs/RouteProofs.v", "chk/C13chk.v", "props/C13.v", "refute/C13.v"],
+     n={"quick": 48, "thorough": 1000, "search": 200},
+     shrink_fields=[],
+     rule="stream cases: 1-3 publishers x 1-3 topics x 1-3 subscribers (v3.1.1/v5, Receive Maximum 1/2/unlimited) through clients.Manager over net.Pipe, "
+          "20-80 (thorough 50-500) sequence-numbered messages per publisher at QoS 0/1/2 or mixed; the subscriber-side arrival order per "
+          "(subscriber, publisher, topic, qos) must be 1,2,3,... and complete. Every 8th case replays the two-worker witness of refute/C13.v on the "
+          "provider (memlockfree or mem) with a stub that holds message 1 until message 2 arrives. non-trivial = more than one message; distinct by case JSON.",
+     level_text="Theorem (coq/props/C13.v): for the number of routing workers found in topics/memlockfree/topics.go and topics/mem/topics.go by the translator "
+                "(coq/gen/Extracted.v, regenerated on every run), under EVERY schedule of the routing workers each subscriber is handed exactly the messages it must get, "
+                "in publication order (prefix at any time, equality at quiescence); refute/C13.v shows the statement false for two workers. Tied to the code by the translator "
+                "(worker count) and by sequence-numbered streams through the real broker plus a gated-stub replay of the two-worker witness. Partial: goroutine scheduling "
+                "inside the Go runtime and the per-connection writer's FIFO (covered by the C18 queue theorem and the writer model of C03) are modelled, not verified.",
+     level_note="Trusted: Coq kernel + vm_compute; tools/goextract reading publisherCount; the atomicity granularity of the routing model (take from channel, hand to one subscriber); the Go harness.",
+     trusted_base=["tools/goextract: publisherCount literal and its for-loop in NewMemProvider"],
+     assumptions=["a worker's hand-over to one subscriber (subscriber.Publish -> queue Add under the queue mutex) is atomic", "the inbound Go channel is FIFO"],
+)
